@@ -1,6 +1,6 @@
 (** C05 — property theorems only; each closed by [exact] of a lemma proved elsewhere. *)
 From Coq Require Import ZArith List.
-From VB Require Import Stateless.EmbedDefs Stateless.EmbedProofs Stateless.MerkleDefs Stateless.MerkleProofs
+From VB Require Import Stateless.EmbedDefs Stateless.EmbedProofs Stateless.EmbedBits Stateless.MerkleDefs Stateless.MerkleProofs
      Stateless.CheckDefs Stateless.CheckProofs.
 Import ListNotations.
 Local Open Scope Z_scope.
@@ -34,9 +34,15 @@ Theorem C05_embedding_sound : forall data tx,
 Proof. exact embedding_sound. Qed.
 Print Assumptions C05_embedding_sound.
 
-Theorem C05_split_no_oob_buf : forall data tx, zlen tx < 2 ^ 64 -> containsSplit data tx <> VOobBuf.
-Proof. exact split_no_oob_buf. Qed.
-Print Assumptions C05_split_no_oob_buf.
+Theorem C05_split_no_oob : forall data tx,
+  zlen tx < 2 ^ 64 -> containsSplit data tx <> VOobBuf /\ containsSplit data tx <> VOobBits.
+Proof. exact split_no_oob. Qed.
+Print Assumptions C05_split_no_oob.
+
+Theorem C05_embedding_no_oob : forall data tx,
+  zlen tx < 2 ^ 64 -> check_embedding data tx <> VOobBuf /\ check_embedding data tx <> VOobBits.
+Proof. exact embedding_no_oob. Qed.
+Print Assumptions C05_embedding_no_oob.
 
 Theorem C05_split_oob_v0_refuted :
   exists data tx, length data = 80%nat /\ zlen tx < 2 ^ 64 /\ containsSplit_v0 data tx = VOobBuf.
